@@ -26,6 +26,13 @@ func VerifH_flags() {
 	}
 	p, i, d, c := verifStrBuild("project", mk(pOK)), verifStrBuild("instance_name", mk(iOK)), verifStrBuild("database_name", mk(dOK)), verifStrBuild("instanceConfig", mk(cOK))
 	o, pt := verifStr("opsProject"), verifStr("probeType")
+	if verifFlag("ptTable") {
+		// the probe type from a table of concrete spellings (the six names, case variants, padded,
+		// empty, near misses): string transformations applied to the flag before or after
+		// validation are executed on them, which an opaque string cannot show
+		pt = verifChoose("probeTypeK", "noop", "stale_read", "strong_query", "stale_query", "dml", "read_write",
+			"Noop", "NOOP", "Stale_Read", "DML", "Read_Write", " noop", "noop ", "", "read-write", "nope")
+	}
 	q := verifF64("qps")
 	n, ps := verifInt("numRows"), verifInt("payloadSize")
 	project, opsProject, instance_name, database_name, instanceConfig, probeType = &p, &o, &i, &d, &c, &pt
